@@ -14,7 +14,8 @@ class Prop:
     vo_props = ["theories/Props/C03.vo"]
     k_names = ["handshake(device co-simulated against ref == Noise.Model.dev_step against Noise.Paper parties)",
                "wire(device-emitted initiation/response bytes decode with Wire.Codec to the fields ref parsed)"]
-    rule = ("handshake scenarios from one PRNG, 22 templates (private-key change scheduled inside the handshake worker between "
+    rule = ("handshake scenarios from one PRNG, 23 templates (device forced under load: its cookie reply must open at the initiator, "
+            "retry with MAC2 completes; every device initiation's timestamp decoded as TAI64N of now and monotone per peer; private-key change scheduled inside the handshake worker between "
             "ConsumeMessageInitiation and SendHandshakeResponse via the device.Logger callback; UAPI update_only for an unknown key, then restart and an initiation "
             "by that key; cookie expiry: authentic cookie reply, 50 s / 121 s pass via "
             "VerifShiftPeerCookie, then initiations and responses; the last three: private-key rotation with configured peers followed "
@@ -49,7 +50,7 @@ class Prop:
         return meta, files
 
     def generate(self, seed, tier, mult):
-        n = (88 if tier == "quick" else 968) * mult
+        n = (92 if tier == "quick" else 966) * mult
         shards = 8 if tier == "quick" else 32
         exe = vlib.build_go("c03")
         rc, o = vlib.sh([exe, "-seed", str(seed), "-n", str(n), "-shards", str(shards), "-out", self.dir,
@@ -109,6 +110,10 @@ class Prop:
                     return "mac2-not-under-held-cookie"
                 if d[0] == 1 and d[6] != d[1]:
                     return "initiation-does-not-open-at-addressed-peer"
+                if d[0] == 1 and len(d) > 7 and d[7] != 1:
+                    return "timestamp-not-tai64n-of-now-or-goes-backwards"
+            if d and d[0] == 3 and d[3] != 1:
+                return "cookie-reply-does-not-open-at-initiator(under-load)"
             if d and d[0] == 0:
                 return "malformed-or-unopenable-datagram"
             if d and d[0] == 4 and d[3] == 0:
@@ -117,6 +122,8 @@ class Prop:
         if op == "rinitkey":
             return ("session-under-new-identity-for-initiation-consumed-under-old-key" if has(2)
                     else "key-change-during-initiation")
+        if op == "rinitload":
+            return "handshake-under-load"
         if op == "rinit":
             if has(2):
                 return "response-to-initiation"
